@@ -50,6 +50,33 @@ ANNOT = {
     "C19-m3": (F, ""),
     "C19-m4": (O, "CLI files with CR inside the text and at line ends, compared byte for byte; strip_eol model case terms"),
     "C20-m3": (F, ""), "C20-m4": (F, ""),
+    # round 3
+    "C01-m5": (F, ""),
+    "C01-m6": (M, "C01 now also runs sessions through the sudachipy module (one Tokenizer, reused out= list, per-call modes, empty and blank texts anywhere) and evaluates the partition predicate in the interpreter"),
+    "C02-m5": (M, "MeCab provider with a generated unk.def whose left id != right id; every OOV candidate in the lattice must carry one of the configured (left, right, cost) templates"),
+    "C02-m6": (F, ""),
+    "C03-m5": (M, "sessions reusing one tokenizer and ONE result list with empty / blank / rejected inputs anywhere; every accessor (and Debug) of every morpheme after each step"),
+    "C03-m6": (M, "additional user dictionaries that share user-defined parts of speech with each other and with userPOS:allow providers; their words in the hostile texts"),
+    "C04-m5": (O, ""), "C04-m6": (O, ""),
+    "C05-m5": (M, ""), "C05-m6": (M, ""),
+    "C06-m5": (M, ""), "C06-m6": (O, ""),
+    "C07-m5": (O, "reuse sessions contain generated texts that are accepted by start_build and rejected at commit (and texts over 49149 bytes), followed by ordinary texts, on one InputBuffer and on one tokenizer + list"),
+    "C07-m6": (O, "rewrite.def generated and checked as TEXT (comment / blank lines, all separators, '#' inside and in front of keys and values, 1-4 columns, duplicate keys); reader model RewriteDefText.v with C07_rewrite_def_spec / _errors / _accepts / _normalises"),
+    "C08-m5": (F, ""), "C08-m6": (F, ""),
+    "C09-m5": (M, ""), "C09-m6": (F, ""),
+    "C10-m5": (F, ""), "C10-m6": (O, ""),
+    "C11-m5": (F, ""), "C11-m6": (O, ""),
+    "C12-m5": (M, ""), "C12-m6": (M, ""),
+    "C13-m5": (M, ""), "C13-m6": (F, ""),
+    "C14-m5": (O, ""), "C14-m6": (O, ""),
+    "C15-m5": (M, ""), "C15-m6": (M, ""),
+    "C16-m5": (F, ""), "C16-m6": (O, ""),
+    "C17-m5": (F, ""), "C17-m6": (F, ""),
+    "C18-m5": (O, "threads carry different word-info field requests; references are per-request dictionary instances no thread touches"),
+    "C18-m6": (O, "the Python pre-tokenizer adapter (Dictionary.pre_tokenizer with a handler) is called from 2..8 threads and compared with its single-threaded answers"),
+    "C19-m5": (F, ""),
+    "C19-m6": (M, "directed sessions whose FIRST call carries a per-call mode override, for every creation mode x small field requests"),
+    "C20-m5": (F, ""), "C20-m6": (M, ""),
 }
 
 
